@@ -21,6 +21,8 @@
 package sidx
 
 import (
+	"bytes"
+
 	"github.com/apache/skywalking-banyandb/api/common"
 	"github.com/apache/skywalking-banyandb/pkg/encoding"
 	pbv1 "github.com/apache/skywalking-banyandb/pkg/pb/v1"
@@ -59,6 +61,12 @@ func unmarshalTag(dest [][]byte, src []byte, valueType pbv1.ValueType) ([][]byte
 		return dest, nil
 	}
 	if valueType == pbv1.ValueTypeStrArr {
+		// UnmarshalVarArray un-escapes in place and dest keeps views into src, but src is not
+		// owned by this row: a dictionary-encoded column hands the same entry to every row that
+		// carries the value. Decode a private copy whenever the decoder would write.
+		if bytes.IndexByte(src, encoding.Escape) >= 0 {
+			src = bytes.Clone(src)
+		}
 		var (
 			end  int
 			next int
